@@ -316,8 +316,39 @@ const MAX_TTL: u32 = 3_000_000;
 /// limits by default and reports an excess by panicking AFTER the invocation has committed; the
 /// property is about the registries as data structures, so the limits are switched off (with
 /// them, e.g. `remove_claim_topic` over 50 issuers writes 51 > 50 ledger entries).
+/// "long idle" sequences use a host whose entries may live about a year (`max_entry_ttl`
+/// 6 312 000 ledgers, `min_persistent_entry_ttl` = max - 1): the persistent and instance entries of
+/// the unmodified code stay live across the idle gaps (1 + 31 + 100 days), an entry that was moved
+/// to TEMPORARY storage with a ~30-day extension does not.
+const LONG_TTL: u32 = 6_312_000;
+const LEDGERS_PER_DAY: u32 = 17_280;
+thread_local! {
+    static LONG_ENV: std::cell::Cell<bool> = std::cell::Cell::new(false);
+    /// (number of the op before which the gap is inserted, days)
+    static IDLE_PLAN: std::cell::RefCell<Vec<(u32, u32)>> = std::cell::RefCell::new(vec![]);
+    static OP_NO: std::cell::Cell<u32> = std::cell::Cell::new(0);
+}
+fn long_env(on: bool) {
+    LONG_ENV.with(|l| l.set(on));
+    IDLE_PLAN.with(|p| p.borrow_mut().clear());
+    OP_NO.with(|c| c.set(0));
+}
+/// thorough tier: every fourth random history runs on the long-horizon host with two or three idle
+/// gaps (1, 31, 100 days) at random places
+fn plan_idle(rng: &mut Rng, thorough: bool, k: u64) {
+    long_env(false);
+    if thorough && k % 4 == 0 {
+        long_env(true);
+        let mut plan: Vec<(u32, u32)> = vec![(rng.range(3, 15) as u32, 31), (rng.range(16, 28) as u32, 100)];
+        if rng.chance(50) {
+            plan.push((rng.range(29, 38) as u32, 1));
+        }
+        IDLE_PLAN.with(|p| *p.borrow_mut() = plan);
+    }
+}
+
 fn env() -> Env {
-    let e = new_env(100, 16, MAX_TTL);
+    let e = new_env(100, 16, if LONG_ENV.with(|l| l.get()) { LONG_TTL } else { MAX_TTL });
     e.cost_estimate().disable_resource_limits();
     e.cost_estimate().budget().reset_unlimited();
     e
@@ -436,14 +467,42 @@ fn run(e: &Env, c: &Address, f: &str, a: SVec<Val>) -> Option<Val> {
 trait Reg {
     /// (accepted?, extra tokens printed right after ok/err, e.g. "ret=3 ")
     fn exec(&mut self, ws: &[&str]) -> (bool, String);
+    fn host(&self) -> &Env;
+    /// printed between the verdict and the getters of an idle observation
+    fn idle_extra(&self) -> &'static str {
+        ""
+    }
     fn state(&self, ws: &[&str]) -> String;
 }
 
 fn drive(t: &mut Trace, r: &mut dyn Reg, op: &str) -> bool {
+    // planned idle gaps of a random long-idle history
+    let no = OP_NO.with(|c| {
+        c.set(c.get() + 1);
+        c.get()
+    });
+    let gap = IDLE_PLAN.with(|p| p.borrow().iter().find(|(at, _)| *at == no).map(|(_, d)| *d));
+    if let Some(days) = gap {
+        let reg = op.split(' ').next().unwrap().to_string();
+        IDLE_PLAN.with(|p| p.borrow_mut().retain(|(at, _)| *at != no));
+        drive(t, r, &format!("{} idle days=0", reg));
+        drive(t, r, &format!("{} idle days={}", reg, days));
+    }
     let t0 = std::time::Instant::now();
     t.op(op);
     let ws: Vec<&str> = op.split(' ').filter(|w| !w.is_empty()).collect();
-    let (ok, extra) = r.exec(&ws);
+    let (ok, extra) = if ws[1] == "idle" {
+        // the ledger moves on, the contract is not touched
+        use soroban_sdk::testutils::Ledger as _;
+        let e = r.host();
+        let mut li = e.ledger().get();
+        li.sequence_number += kvn(&ws, "days") * LEDGERS_PER_DAY;
+        li.timestamp += kvn(&ws, "days") as u64 * 86_400;
+        e.ledger().set(li);
+        (true, r.idle_extra().to_string())
+    } else {
+        r.exec(&ws)
+    };
     let st = r.state(&ws);
     t.obs(&format!("{} {}{}", if ok { "ok" } else { "err" }, extra, st));
     if std::env::var("C20_TIMING").is_ok() && t0.elapsed().as_millis() > 40 {
@@ -474,6 +533,9 @@ impl KeysSim {
     }
 }
 impl Reg for KeysSim {
+    fn host(&self) -> &Env {
+        &self.e
+    }
     fn exec(&mut self, ws: &[&str]) -> (bool, String) {
         let e = &self.e;
         let (k, s, r, t) = (kvn(ws, "k"), kvn(ws, "s"), kvn(ws, "r"), kvn(ws, "t"));
@@ -518,6 +580,21 @@ impl Reg for KeysSim {
 }
 
 fn keys_scenarios(t: &mut Trace, rng: &mut Rng, thorough: bool) {
+    long_env(true);
+    t.seq("keys long idle 1 31 100 days nk=3 nt=8");
+    let mut s = KeysSim::new(3, 8);
+    let mut build: Vec<String> = (0..20u32).map(|i| format!("keys allow k=1 s=1 r={} t={}", i % 3, i / 3)).collect();
+    build.extend(strs(&["keys allow k=2 s=1 r=0 t=0", "keys allow k=2 s=2 r=1 t=1", "keys remove k=2 s=2 r=1 t=1"]));
+    idle_history(t, "keys", &mut s, &build, &|_| {
+        strs(&[
+            "keys allow k=1 s=1 r=2 t=6",
+            "keys allow k=2 s=1 r=0 t=0",
+            "keys remove k=2 s=2 r=1 t=1",
+            "keys remove k=1 s=1 r=0 t=0",
+            "keys allow k=1 s=1 r=0 t=0",
+        ])
+    });
+    long_env(false);
     // directed: the documented limit of 20 (topic, registry) pairs per key, exactly
     t.seq("keys directed 20 pairs per key then the 21st nk=3 nt=8");
     let mut s = KeysSim::new(3, 8);
@@ -564,6 +641,7 @@ fn keys_scenarios(t: &mut Trace, rng: &mut Rng, thorough: bool) {
     // generated
     let nseq = if thorough { 120 } else { 14 };
     for k in 0..nseq {
+        plan_idle(rng, thorough, k as u64);
         t.seq(&format!("keys rand k={} nk=3 nt=8", k));
         let mut s = KeysSim::new(3, 8);
         let mut live: Vec<(u32, u32, u32, u32)> = vec![];
@@ -669,6 +747,9 @@ impl TopicsSim {
     }
 }
 impl Reg for TopicsSim {
+    fn host(&self) -> &Env {
+        &self.e
+    }
     fn exec(&mut self, ws: &[&str]) -> (bool, String) {
         let e = &self.e;
         let (t, i, ts) = (kvn(ws, "t"), kvn(ws, "i"), kvl(ws, "ts"));
@@ -737,6 +818,24 @@ fn lst(xs: &[u32]) -> String {
 }
 
 fn topics_scenarios(t: &mut Trace, rng: &mut Rng, thorough: bool) {
+    long_env(true);
+    t.seq("topics long idle 1 31 100 days nt=17 ni=4 ht=2");
+    let mut s = TopicsSim::new(17, 4, 2);
+    let mut build: Vec<String> = (0..15u32).map(|k| format!("topics add_topic t={}", k)).collect();
+    build.extend(strs(&["topics add_issuer i=0 ts=0,1", "topics add_issuer i=1 ts=1", "topics add_issuer i=2 ts=0", "topics remove_issuer i=2"]));
+    idle_history(t, "topics", &mut s, &build, &|_| {
+        strs(&[
+            "topics add_topic t=15",
+            "topics add_topic t=0",
+            "topics add_issuer i=0 ts=1",
+            "topics remove_issuer i=2",
+            "topics update i=1 ts=0,1",
+            "topics update i=1 ts=1",
+            "topics remove_topic t=14",
+            "topics add_topic t=14",
+        ])
+    });
+    long_env(false);
     t.seq("topics directed 15 topics then the 16th, 50 issuers then the 51st nt=17 ni=52 ht=2");
     let mut s = TopicsSim::new(17, 52, 2);
     for k in 0..16u32 {
@@ -791,6 +890,7 @@ fn topics_scenarios(t: &mut Trace, rng: &mut Rng, thorough: bool) {
     }
     let nseq = if thorough { 150 } else { 16 };
     for k in 0..nseq {
+        plan_idle(rng, thorough, k as u64);
         t.seq(&format!("topics rand k={} nt=4 ni=4", k));
         let mut s = TopicsSim::new(4, 4, 4);
         for _ in 0..40 {
@@ -835,6 +935,9 @@ impl BinderSim {
     }
 }
 impl Reg for BinderSim {
+    fn host(&self) -> &Env {
+        &self.e
+    }
     fn exec(&mut self, ws: &[&str]) -> (bool, String) {
         let e = &self.e;
         let r = match ws[1] {
@@ -880,7 +983,7 @@ impl Reg for BinderSim {
                         vec![l[0], *l.last().unwrap()]
                     }
                 }
-                "preload" => vec![],
+                "preload" | "idle" => vec![],
                 _ => vec![kvn(ws, "t")],
             };
             optoks.extend([0, 1, 99, 100, 101, 199, 200, 201, 9999, 10000]);
@@ -961,6 +1064,26 @@ fn binder_at_limit(t: &mut Trace, s: &mut BinderSim, slow: bool) {
 }
 
 fn binder_scenarios(t: &mut Trace, rng: &mut Rng, thorough: bool) {
+    long_env(true);
+    t.seq("binder long idle 1 31 100 days at the limit big=1");
+    let mut s = BinderSim::new(0);
+    idle_history(
+        t,
+        "binder",
+        &mut s,
+        &strs(&["binder preload n=9999", "binder bind t=9999", "binder unbind t=0", "binder bind t=0"]),
+        &|_| {
+            strs(&[
+                "binder bind t=10001",
+                "binder bind t=5",
+                "binder bind_many ts=10001..10002",
+                "binder unbind t=20000",
+                "binder unbind t=7",
+                "binder bind t=7",
+            ])
+        },
+    );
+    long_env(false);
     t.seq("binder directed remove first last only, re-add u=6");
     let mut s = BinderSim::new(6);
     for op in [
@@ -1055,6 +1178,7 @@ fn binder_scenarios(t: &mut Trace, rng: &mut Rng, thorough: bool) {
     binder_at_limit(t, &mut s, false);
     let nseq = if thorough { 200 } else { 16 };
     for k in 0..nseq {
+        plan_idle(rng, thorough, k as u64);
         t.seq(&format!("binder rand k={} u=6", k));
         let mut s = BinderSim::new(6);
         for _ in 0..40 {
@@ -1105,6 +1229,9 @@ impl DocsSim {
     }
 }
 impl Reg for DocsSim {
+    fn host(&self) -> &Env {
+        &self.e
+    }
     fn exec(&mut self, ws: &[&str]) -> (bool, String) {
         let e = &self.e;
         let ok = match ws[1] {
@@ -1158,7 +1285,7 @@ impl Reg for DocsSim {
         } else {
             let mut ns: Vec<u32> = match ws[1] {
                 "fill" => vec![kvn(ws, "a"), kvn(ws, "b").saturating_sub(1)],
-                "preload" => vec![],
+                "preload" | "idle" => vec![],
                 _ => vec![kvn(ws, "n")],
             };
             ns.extend([0, 1, 49, 50, 51, 4999, 5000]);
@@ -1229,6 +1356,36 @@ fn docs_at_limit(t: &mut Trace, s: &mut DocsSim) {
 }
 
 fn docs_scenarios(t: &mut Trace, rng: &mut Rng, thorough: bool) {
+    long_env(true);
+    t.seq("docs long idle 1 31 100 days u=5");
+    let mut s = DocsSim::new(5);
+    idle_history(
+        t,
+        "docs",
+        &mut s,
+        &strs(&["docs set n=0 u=1 h=1 ts=6000", "docs set n=1 u=2 h=2 ts=6001", "docs set n=2 u=3 h=3 ts=6002", "docs set n=3 u=200 h=4 ts=6003", "docs remove n=1"]),
+        &|gap| {
+            vec![
+                "docs remove n=1".to_string(),
+                format!("docs set n=0 u=5 h=9 ts={}", 7000 + gap),
+                "docs set n=4 u=201 h=1 ts=7100".to_string(),
+                "docs remove n=2".to_string(),
+                format!("docs set n=2 u=3 h=3 ts={}", 7200 + gap),
+            ]
+        },
+    );
+    if thorough && first_shard() {
+        t.seq("docs long idle 1 31 100 days at the limit big=1");
+        let mut s = DocsSim::new(0);
+        idle_history(
+            t,
+            "docs",
+            &mut s,
+            &strs(&["docs preload n=4999 u=2 h=3 ts=3000", "docs set n=4999 u=2 h=3 ts=3001", "docs remove n=0", "docs set n=0 u=2 h=3 ts=3002"]),
+            &|_| strs(&["docs set n=5001 u=2 h=3 ts=3003", "docs remove n=6000", "docs set n=17 u=9 h=9 ts=3004", "docs remove n=7", "docs set n=7 u=2 h=3 ts=3005"]),
+        );
+    }
+    long_env(false);
     t.seq("docs directed update, remove first last only, uri length 200 201 u=5");
     let mut s = DocsSim::new(5);
     for op in [
@@ -1292,6 +1449,7 @@ fn docs_scenarios(t: &mut Trace, rng: &mut Rng, thorough: bool) {
     docs_at_limit(t, &mut s);
     let nseq = if thorough { 200 } else { 16 };
     for k in 0..nseq {
+        plan_idle(rng, thorough, k as u64);
         t.seq(&format!("docs rand k={} u=5", k));
         let mut s = DocsSim::new(5);
         for j in 0..40u32 {
@@ -1427,6 +1585,9 @@ impl IrsSim {
     }
 }
 impl Reg for IrsSim {
+    fn host(&self) -> &Env {
+        &self.e
+    }
     fn exec(&mut self, ws: &[&str]) -> (bool, String) {
         let e = &self.e;
         let a = |k: &str| v(e, self.accts.a(kvn(ws, k)));
@@ -1484,6 +1645,35 @@ impl Reg for IrsSim {
 }
 
 fn irs_scenarios(t: &mut Trace, rng: &mut Rng, thorough: bool) {
+    long_env(true);
+    t.seq("irs long idle 1 31 100 days na=4");
+    let mut s = IrsSim::new(4);
+    let c15i: Vec<String> = (0..15).map(|i| format!("{}/0/0", 200 + i)).collect();
+    idle_history(
+        t,
+        "irs",
+        &mut s,
+        &[
+            "irs add a=0 id=0 ty=0 cs=1/0/0".to_string(),
+            "irs recover old=0 new=1".to_string(),
+            format!("irs add a=2 id=1 ty=1 cs={}", c15i.join(",")),
+            "irs add a=3 id=2 ty=0 cs=1/0/0".to_string(),
+            "irs remove a=3".to_string(),
+        ],
+        &|_| {
+            strs(&[
+                "irs add a=0 id=2 ty=0 cs=1/0/0",
+                "irs recover old=2 new=0",
+                "irs add a=1 id=2 ty=0 cs=1/0/0",
+                "irs add_countries a=2 cs=9/0/0",
+                "irs remove a=3",
+                "irs modify a=1 id=2",
+                "irs delete_country a=2 i=0",
+                "irs add_countries a=2 cs=9/0/0",
+            ])
+        },
+    );
+    long_env(false);
     t.seq("irs directed recovery, re-registration, country limits na=4");
     let mut s = IrsSim::new(4);
     let c15: Vec<String> = (0..15).map(|i| format!("{}/0/0", 100 + i)).collect();
@@ -1532,6 +1722,7 @@ fn irs_scenarios(t: &mut Trace, rng: &mut Rng, thorough: bool) {
     }
     let nseq = if thorough { 200 } else { 20 };
     for k in 0..nseq {
+        plan_idle(rng, thorough, k as u64);
         t.seq(&format!("irs rand k={} na=4", k));
         let mut s = IrsSim::new(4);
         for _ in 0..40 {
@@ -1590,6 +1781,12 @@ impl ClaimsSim {
     }
 }
 impl Reg for ClaimsSim {
+    fn host(&self) -> &Env {
+        &self.e
+    }
+    fn idle_extra(&self) -> &'static str {
+        "ret=- "
+    }
     fn exec(&mut self, ws: &[&str]) -> (bool, String) {
         let e = &self.e;
         match ws[1] {
@@ -1643,6 +1840,25 @@ impl Reg for ClaimsSim {
 }
 
 fn claims_scenarios(t: &mut Trace, rng: &mut Rng, thorough: bool) {
+    long_env(true);
+    t.seq("claims long idle 1 31 100 days");
+    let mut s = ClaimsSim::new();
+    idle_history(
+        t,
+        "claims",
+        &mut s,
+        &strs(&["claims add t=0 sc=1 i=0 sg=5 d=6 u=1", "claims add t=0 sc=1 i=1 sg=5 d=6 u=1", "claims add t=1 sc=1 i=0 sg=5 d=6 u=1", "claims remove i=1 t=0"]),
+        &|_| {
+            strs(&[
+                "claims remove i=1 t=0",
+                "claims add t=0 sc=2 i=0 sg=7 d=8 u=2",
+                "claims add t=2 sc=2 i=0 sg=7 d=0 u=2",
+                "claims remove i=0 t=1",
+                "claims add t=1 sc=1 i=0 sg=5 d=6 u=1",
+            ])
+        },
+    );
+    long_env(false);
     t.seq("claims directed add, update in place, remove first last only, re-add");
     let mut s = ClaimsSim::new();
     for op in [
@@ -1667,6 +1883,7 @@ fn claims_scenarios(t: &mut Trace, rng: &mut Rng, thorough: bool) {
     }
     let nseq = if thorough { 200 } else { 20 };
     for k in 0..nseq {
+        plan_idle(rng, thorough, k as u64);
         t.seq(&format!("claims rand k={}", k));
         let mut s = ClaimsSim::new();
         for _ in 0..40 {
@@ -1724,6 +1941,9 @@ impl HooksSim {
     }
 }
 impl Reg for HooksSim {
+    fn host(&self) -> &Env {
+        &self.e
+    }
     fn exec(&mut self, ws: &[&str]) -> (bool, String) {
         let e = &self.e;
         let a = args(e, [v(e, hook(kvn(ws, "h"))), v(e, self.mods.a(kvn(ws, "m")))]);
@@ -1746,6 +1966,15 @@ impl Reg for HooksSim {
 }
 
 fn hooks_scenarios(t: &mut Trace, rng: &mut Rng, thorough: bool) {
+    long_env(true);
+    t.seq("hooks long idle 1 31 100 days nm=22");
+    let mut s = HooksSim::new(22);
+    let mut build: Vec<String> = (0..20u32).map(|m| format!("hooks add h=3 m={}", m)).collect();
+    build.extend(strs(&["hooks add h=1 m=0", "hooks remove h=1 m=0"]));
+    idle_history(t, "hooks", &mut s, &build, &|_| {
+        strs(&["hooks add h=3 m=20", "hooks add h=3 m=0", "hooks remove h=1 m=0", "hooks remove h=3 m=5", "hooks add h=3 m=5"])
+    });
+    long_env(false);
     t.seq("hooks directed 20 modules per hook then the 21st nm=22");
     let mut s = HooksSim::new(22);
     drive(t, &mut s, "hooks remove h=0 m=0");
@@ -1757,6 +1986,7 @@ fn hooks_scenarios(t: &mut Trace, rng: &mut Rng, thorough: bool) {
     }
     let nseq = if thorough { 150 } else { 14 };
     for k in 0..nseq {
+        plan_idle(rng, thorough, k as u64);
         t.seq(&format!("hooks rand k={} nm=4", k));
         let mut s = HooksSim::new(4);
         for _ in 0..40 {
@@ -1874,6 +2104,12 @@ impl RulesSim {
     }
 }
 impl Reg for RulesSim {
+    fn host(&self) -> &Env {
+        &self.e
+    }
+    fn idle_extra(&self) -> &'static str {
+        "ret=- "
+    }
     fn exec(&mut self, ws: &[&str]) -> (bool, String) {
         let e = &self.e;
         let id = kvn(ws, "id");
@@ -1944,6 +2180,25 @@ impl Reg for RulesSim {
 }
 
 fn rules_scenarios(t: &mut Trace, rng: &mut Rng, thorough: bool) {
+    long_env(true);
+    t.seq("rules long idle 1 31 100 days now=100 s0=0 p0=-");
+    let mut s = RulesSim::new(&[0], &[]);
+    // ids 1..12, then id 13 (expires at ledger 150), id 2 removed, id 14 added: 14 rules
+    let mut build: Vec<String> = (1..13u32).map(|k| format!("rules add c={} n={} vu=none sg={} ps=-", k % 4, k, k)).collect();
+    build.extend(strs(&["rules add c=1 n=30 vu=150 sg=16 ps=0", "rules remove id=2", "rules add c=2 n=31 vu=none sg=2 ps=-"]));
+    idle_history(t, "rules", &mut s, &build, &|gap| {
+        vec![
+            "rules add c=1 n=40 vu=none sg=1 ps=-".to_string(), // the fingerprint of rule 1
+            "rules add c=1 n=40 vu=none sg=16 ps=0".to_string(), // the fingerprint of rule 13
+            "rules add c=3 n=41 vu=none sg=17 ps=-".to_string(), // the 15th rule: id 15 + gap
+            "rules add c=3 n=42 vu=none sg=16,17 ps=-".to_string(), // the 16th
+            "rules add_signer id=1 sg=1".to_string(),
+            "rules revalid id=13 vu=150".to_string(),
+            "rules remove id=2".to_string(),
+            format!("rules remove id={}", 15 + gap),
+        ]
+    });
+    long_env(false);
     t.seq("rules directed 15 rules then the 16th, ids never reused now=100 s0=0 p0=-");
     let mut s = RulesSim::new(&[0], &[]);
     for k in 1..16u32 {
@@ -2010,6 +2265,7 @@ fn rules_scenarios(t: &mut Trace, rng: &mut Rng, thorough: bool) {
     }
     let nseq = if thorough { 200 } else { 16 };
     for k in 0..nseq {
+        plan_idle(rng, thorough, k as u64);
         t.seq(&format!("rules rand k={} now=100 s0=0 p0=-", k));
         let mut s = RulesSim::new(&[0], &[]);
         let mut next_name = 1;
@@ -2073,6 +2329,27 @@ fn rules_scenarios(t: &mut Trace, rng: &mut Rng, thorough: bool) {
     }
 }
 
+/// "long idle" history: build the state, then three gaps of 1, 31 and 100 days during which the
+/// contract is not touched; around each gap every getter is read (`idle days=0` right before,
+/// `idle days=n` right after) and the operations that the persisted data must still refuse
+/// (duplicate, absent, past a limit, recovered account) or allow are retried.
+fn idle_history(t: &mut Trace, reg: &str, s: &mut dyn Reg, build: &[String], retry: &dyn Fn(usize) -> Vec<String>) {
+    for op in build {
+        drive(t, s, op);
+    }
+    for (gap, days) in [1u32, 31, 100].iter().enumerate() {
+        drive(t, s, &format!("{} idle days=0", reg));
+        drive(t, s, &format!("{} idle days={}", reg, days));
+        for op in retry(gap) {
+            drive(t, s, &op);
+        }
+    }
+    drive(t, s, &format!("{} idle days=0", reg));
+}
+fn strs(xs: &[&str]) -> Vec<String> {
+    xs.iter().map(|x| x.to_string()).collect()
+}
+
 /// the slow from-empty limit histories run in one shard of a thorough run only
 fn first_shard() -> bool {
     seed_from_env() % arg_u64("--xshards", 1) == 0
@@ -2080,6 +2357,7 @@ fn first_shard() -> bool {
 
 /// every sequence of `len` ops over `alphabet`, each from a fresh registry
 fn exhaustive(t: &mut Trace, label: &str, alphabet: &[String], len: usize, fresh: &mut dyn FnMut() -> Box<dyn Reg>) {
+    long_env(false);
     let n = alphabet.len();
     let total = n.pow(len as u32);
     // the shards of a thorough run (seeds base + 7919 k) split the space between them
